@@ -38,6 +38,8 @@ def enc(v):
 
     if v is None:
         return None
+    if isinstance(v, (bool, float, str)) and (type(v).__name__, repr(v)) in VARIANT_ID:
+        return VARIANT_ID[(type(v).__name__, repr(v))]
     if isinstance(v, bool):
         return {"o": repr(v)}
     if isinstance(v, int):
@@ -53,9 +55,17 @@ def enc(v):
     return {"o": repr(v)}
 
 
+# Wire atoms >= 1000: scalars of another type, most of them `==` to a plain int atom (the property says "value for
+# value and type for type": an `==` shortcut anywhere in Namespace must not swallow a change of type).
+VARIANTS = {1000: False, 1001: True, 1002: 0.0, 1003: 1.0, 1004: "0", 1005: "", 1006: 2.0}
+VARIANT_ID = {(type(v).__name__, repr(v)): k for k, v in VARIANTS.items()}
+
+
 def dec(j):
     from jsonargparse import Namespace
 
+    if isinstance(j, int) and not isinstance(j, bool) and j in VARIANTS:
+        return VARIANTS[j]
     if j is None or isinstance(j, int):
         return j
     if isinstance(j, list):
@@ -565,6 +575,8 @@ def gen_value(rng, depth=0, names=None):
     names = names or (ORD + CLASH)
     r = rng.random()
     if depth >= 2 or r < 0.35:
+        if rng.random() < 0.3:
+            return rng.choice(sorted(VARIANTS))
         return rng.choice([None, 0, 1, 2, 7, -3])
     if r < 0.5:
         return [gen_value(rng, depth + 1) for _ in range(rng.randint(0, 2))]
@@ -684,6 +696,8 @@ def exhaustive_sequences(max_len):
         alpha.append({"op": "pop", "k": k, "v": None})
     alpha.append({"op": "update", "k": None, "v": {"n": [["a", {"n": [["b", 5]]}]]}, "only_unset": True})
     alpha.append({"op": "update", "k": "a", "v": {"n": [["​keys", 6]]}, "only_unset": False})
+    alpha.append({"op": "set", "k": "a.b", "v": 1})
+    alpha.append({"op": "update", "k": "a", "v": {"n": [["b", 1001]]}, "only_unset": False})  # True == 1, another type
     return alpha
 
 
